@@ -39,6 +39,10 @@ def enumerate_states(tier):
                     for w in (("i",), ("i", "i")):
                         states.append(dict(key="c_stamped_%s_%s_%s" % ("a" if asy else "s", "bor" if borrowed else "own", "".join(w)),
                                            shape=shape, asy=asy, borrowed=borrowed, word="".join(w), maybe_send=False, stamped=True))
+                if shape != "ltparam":
+                    # .. and with the concrete type passed as a `$t:ty` fragment (it then arrives wrapped in an invisible group)
+                    states.append(dict(key="c_stampty_%s_%s_%s" % (shape, "a" if asy else "s", "bor" if borrowed else "own"),
+                                       shape=shape, asy=asy, borrowed=borrowed, word="i", maybe_send=False, stamped="ty"))
                 for w in words:
                     for ms in ((False, True) if asy else (False,)):
                         states.append(dict(key="c_%s_%s_%s_%s%s" % (shape, "a" if asy else "s", "bor" if borrowed else "own", "".join(w) or "0", "_ms" if ms else ""),
@@ -71,7 +75,13 @@ def render(s):
     L = ["mod %s {" % key, "    use super::rt;"]
     if pre:
         L.append("    " + pre)
-    if s.get("stamped"):
+    if s.get("stamped") == "ty":
+        L.append("    macro_rules! stamp { ($t:ty) => {")
+        L.append("    #[::entrait::entrait(pub Tr%s)]" % (", ?Send" if ms else ""))
+        L.append("    %s { %s }" % (sig.replace("deps: &%s" % ty, "deps: &$t").replace("deps: &'d %s" % ty, "deps: &'d $t"), body))
+        L.append("    } }")
+        L.append("    stamp!(%s);" % ty)
+    elif s.get("stamped"):
         # the function is stamped out by macro_rules, the concrete dependency type is a macro argument
         L.append("    macro_rules! stamp { ($t:ident) => {")
         L.append("    #[::entrait::entrait(pub Tr%s)]" % (", ?Send" if ms else ""))
